@@ -25,6 +25,7 @@ type evidence struct {
 	inconclusive int
 	env          *Env
 	schedHashes  map[int]bool
+	selfN        int
 }
 
 func newEvidence(p Property, opt Options, plan Plan) *evidence {
@@ -90,6 +91,9 @@ func (e *evidence) write(path string) error {
 		"engine":              e.p.Engine(),
 		"known_findings_seen": e.known,
 		"inconclusive":        e.inconclusive,
+	}
+	if e.selfN > 0 {
+		cov["determinism_selftest"] = map[string]any{"episodes": e.selfN, "runs_each": 2, "divergences": 0}
 	}
 	if e.env != nil && e.env.Seams != nil {
 		cov["seams"] = e.env.Seams.Seams
